@@ -15,13 +15,31 @@ build() {
     cat /verif/bin/build.log >&2
     return 1
   fi
+  go build -o /verif/bin/maporder ./cmd/maporder 2>>/verif/bin/build.log || { cat /verif/bin/build.log >&2; return 1; }
+}
+# C15: instrument every map iteration of /repo's current sources and build the explorer against that overlay
+build15() {
+  rm -rf /verif/bin/c15overlay
+  if ! (cd /repo && /verif/bin/maporder /verif/bin/c15overlay) >/verif/bin/maporder.log 2>&1; then
+    cat /verif/bin/maporder.log >&2
+    return 1
+  fi
+  if ! go build -tags verifmaporder -overlay /verif/bin/c15overlay/overlay.json -o /verif/bin/mc15 ./cmd/mc 2>/verif/bin/build15.log; then
+    cat /verif/bin/build15.log >&2
+    return 1
+  fi
 }
 case "${1:-}" in
   setup)
     build || exit 2
+    build15 || exit 2
     exit 0;;
   replay)
     build || exit 2
+    if grep -q '"property": "C15"' "$2"; then
+      build15 || exit 2
+      exec /verif/bin/mc15 replay "$2"
+    fi
     exec /verif/bin/mc replay "$2";;
   "")
     echo "usage: run.sh <id> quick|thorough" >&2; exit 2;;
@@ -30,6 +48,13 @@ case "${1:-}" in
     if ! build; then
       echo "harness build failed against /repo's working tree (see above)" >&2
       exit 2
+    fi
+    if [ "$id" = C15 ]; then
+      if ! build15; then
+        echo "instrumented build failed against /repo's working tree (see above)" >&2
+        exit 2
+      fi
+      exec /verif/bin/mc15 check "$id" "$tier"
     fi
     exec /verif/bin/mc check "$id" "$tier";;
 esac
